@@ -426,6 +426,7 @@ def main(argv):
     ap.add_argument("--replay", default=None)
     ap.add_argument("--jobs", type=int, default=int(os.environ.get("VF_JOBS", "8")))
     ap.add_argument("--keep", action="store_true")
+    ap.add_argument("--unit", default=None, help="only harness units whose name contains this string")
     ap.add_argument("--params", default=None, help="with --only: run a single parameter combination a,b,c")
     a = ap.parse_args(argv)
     pid = a.prop
@@ -435,6 +436,8 @@ def main(argv):
     if not os.path.exists(IR2C):
         subprocess.run(["make", "-C", os.path.join(VERIF, "tools")], check=True, stdout=subprocess.DEVNULL)
     units = [Unit(p) for p in sorted(glob.glob(os.path.join(VERIF, "harness", pid + "_*.cpp")))]
+    if a.unit:
+        units = [u for u in units if a.unit in u.name]
     if not units:
         print("ERROR no harness units for", pid)
         return 2
